@@ -24,7 +24,10 @@ Record evrec := mkEv {
   ev_order : list positive; ev_obs : list cobs;
   ev_qorder : list positive;
   ev_palloc : res;                     (* what the preemptor's job holds at the vote *)
-  ev_jp_roles : list (positive * Z) }. (* per role of the job's minTaskMember: its occupied pods (allocated, succeeded, pipelined,
+  ev_jp_roles : list (positive * Z);
+  ev_tier : Z }.                       (* OBSERVED: 1-based index of the last tier the real Session.Preemptable / Reclaimable call
+                                          of this attempt reached (a marker plugin in front of every tier); for a
+                                          victim that was evicted this is the tier in which the real walk decided *) (* per role of the job's minTaskMember: its occupied pods (allocated, succeeded, pipelined,
                                           pending best-effort) when JobPipelined was asked *)        (* the candidates in the pop order of the plugins' victims queue *)
 
 Definition dObs : dec cobs :=
@@ -33,7 +36,8 @@ Definition dEvrec : dec evrec :=
   let* v := dPos in let* a := dZ in let* p := dPos in let* n := dNodeRef in let* pn := dNodeRef in
   let* jc := dZ in let* jm := dZ in
   let* o := dListS dPos in let* ob := dListS dObs in let* qo := dListS dPos in let* pa := dRes in
-  let* jr := dListS (let* r := dPos in let* c := dZ in ret (r, c)) in ret (mkEv v a p n pn jc jm o ob qo pa jr).
+  let* jr := dListS (let* r := dPos in let* c := dZ in ret (r, c)) in
+  let* ti := dZ in ret (mkEv v a p n pn jc jm o ob qo pa jr ti).
 
 Record law_in := mkLawIn { li_spec : spec; li_lims : list qlim_spec; li_clims : list clim_spec; li_evs : list evrec;
                            li_final : list (positive * status * option positive) }.
@@ -268,7 +272,28 @@ Definition law_plugins : bool := forallb respects (li_evs L).
    victim must also be let go by every voter of every tier that was SKIPPED in front of the deciding tier.  The
    law answers true when 103 fails (that violation is reported by 103), so a failure of 104 is exactly: the tier
    walk did what the code documents, and a voter of a skipped earlier tier had vetoed the victim. *)
-Definition respects_all (e : evrec) : bool :=
+(* the tier the recomputed walk decides in, 1-based index into the spec's tiers *)
+Fixpoint decided_ix (e : evrec) (p : task_spec) (ts : list (list plug)) (i : Z) : option Z :=
+  match ts with
+  | [] => None
+  | t :: r =>
+    match voters e t with
+    | [] => decided_ix e p r (i + 1)
+    | _ => match agreement_of e p t with
+           | [] => decided_ix e p r (i + 1)
+           | _ => Some i
+           end
+    end
+  end.
+(* 110: the real walk decided in the tier the recomputed votes decide in (the observed tier is the last one the
+   real call reached).  A voter of an early tier that wrongly returns a victim makes the real walk stop early:
+   this law fails, unsigned. *)
+Definition tier_agrees (e : evrec) : bool :=
+  with_pair e (fun v p =>
+    match decided_ix e p (sp_tiers sp) 1 with Some i => i =? ev_tier e | None => false end).
+Definition law_decided_tier : bool := forallb tier_agrees (li_evs L).
+
+Definition respects_all_raw (e : evrec) : bool :=
   with_pair e (fun v p =>
     match walk e p (sp_tiers sp) [] with
     | Some (skipped, ag) =>
@@ -276,6 +301,10 @@ Definition respects_all (e : evrec) : bool :=
       forallb (fun t => forallb (fun pl => bool_decide (ev_victim e ∈ lets_go e p (p_kind pl))) (voters e t)) skipped
     | None => true
     end).
+(* 104 fails only when the known mechanism is what HAPPENED: the real walk decided in the very tier the recomputed
+   walk decides in (so the earlier tiers with voters really were passed over) and a voter of a passed-over
+   tier had vetoed the victim.  When the observed tier differs, 110 reports it. *)
+Definition respects_all (e : evrec) : bool := respects_all_raw e || negb (tier_agrees e).
 Definition law_plugins_all : bool := forallb respects_all (li_evs L).
 
 (* 105: a job statement is committed only for a job that is JobPipelined (inter-job preemption and
